@@ -76,6 +76,7 @@ type Recovered struct {
 	TopoCount  int      `json:"topo_count"`
 	TopoLast   uint64   `json:"topo_last"`
 	NodeTopo   uint64   `json:"node_topo"`
+	LastMint   uint64   `json:"last_mint"`          // Node.LastMint after SetupNode
 	Problems   []string `json:"problems,omitempty"` // scan: finalized tx without body/outputs/finalization, duplicate positions
 	Finalized  int      `json:"finalized"`
 	SnapHashes []string `json:"-"`
@@ -171,6 +172,7 @@ func scan(res *Recovered, store *storage.BadgerStore, node *kernel.Node, env *En
 		res.MarkerTs = last.Timestamp
 	}
 	res.NodeTopo = node.TopologicalOrder()
+	res.LastMint = node.LastMint
 
 	seenSnap := map[crypto.Hash]uint64{}
 	seenTx := map[crypto.Hash]bool{}
